@@ -458,10 +458,6 @@ Section Abs.
     | _, _ => False
     end.
 
-  Lemma pass_unres_perm_length strict ks A A' :
-    Confluence.pass _ _ path_eqb att strict A ks = Some A' -> True.
-  Proof. trivial. Qed.
-
   Lemma loop_sim order : (forall l, Permutation (order l) l) -> forall fuel st A, sim st A ->
     abs_result (resolve_loop order fuel st) (Confluence.loop _ _ path_eqb att items order true fuel A).
   Proof.
